@@ -255,4 +255,6 @@ def gen_compiled(draw, tier):
 PARTS = [
     Part('histories', check_history, strategy=gen_history, n={'quick': 300, 'thorough': 5000}, workers={'quick': 4, 'thorough': 16}),
     Part('compiled_graphs', check_compiled, strategy=gen_compiled, n={'quick': 150, 'thorough': 2500}, workers={'quick': 2, 'thorough': 16}),
+    Part('fuzz_histories', None, fuzz_of='histories', runs={'quick': 0, 'thorough': 20000}, workers={'quick': 0, 'thorough': 8},
+         doc='atheris campaign over rewrite histories'),
 ]
